@@ -2,6 +2,7 @@ package main
 
 import (
 	"fmt"
+	"go/types"
 	"sort"
 	"strings"
 
@@ -360,6 +361,8 @@ func ruleArchiveLocationSiblings(p *Program, r *Report) {
 				}
 				return out
 			}
+			// a location computed by a helper of the package: its non-error returns are alternatives
+			var viaHelper func(g *ssa.Function, idx, depth int) int
 			var mapped func(v ssa.Value, depth int) int // 1 = carries the mapping, 0 = neutral (constant), -1 = derived from a path without it
 			mapped = func(v ssa.Value, depth int) int {
 				if depth > 8 {
@@ -379,7 +382,16 @@ func ruleArchiveLocationSiblings(p *Program, r *Report) {
 						}
 					}
 					return res
+				case *ssa.Extract:
+					if c, ok := x.Tuple.(*ssa.Call); ok {
+						if g := c.Call.StaticCallee(); g != nil && g != cmp && g.Pkg == fn.Pkg && g.Blocks != nil {
+							return viaHelper(g, x.Index, depth)
+						}
+					}
 				case *ssa.Call:
+					if g := x.Call.StaticCallee(); g != nil && g != cmp && g.Pkg == fn.Pkg && g.Blocks != nil && g.Signature.Results().Len() == 1 && !isPathJoin(x) {
+						return viaHelper(g, 0, depth)
+					}
 					if isPathJoin(x) {
 						res := 0
 						bad := false
@@ -415,6 +427,31 @@ func ruleArchiveLocationSiblings(p *Program, r *Report) {
 					return -1
 				}
 				return 0
+			}
+			viaHelper = func(g *ssa.Function, idx, depth int) int {
+				r.Fn(FnName(g))
+				res := 0
+				bad := false
+				ForEachInstr(g, func(ins ssa.Instruction) {
+					ret, ok := ins.(*ssa.Return)
+					if !ok || idx >= len(ret.Results) {
+						return
+					}
+					last := len(ret.Results) - 1
+					if last != idx && types.Identical(ret.Results[last].Type(), types.Universe.Lookup("error").Type()) && !IsNilConst(RetVal(ret, last)) {
+						return
+					}
+					switch mapped(RetVal(ret, idx), depth+1) {
+					case -1:
+						bad = true
+					case 1:
+						res = 1
+					}
+				})
+				if bad {
+					return -1
+				}
+				return res
 			}
 			okAll = mapped(loc, 0) == 1
 			r.Check(okAll, key, fmt.Sprintf("derived from the bundle configuration (mainRoot=%v absRootPath=%v) / createModulePath=%v", mr, ar, mp),
